@@ -151,6 +151,40 @@ func TestVerif_C05_RoleConflictSolo(t *testing.T) {
 				s.removeInflight(d)
 			}
 		}
+		// optionally the session is restarted first (Restart, candidates and credentials signalled again): the
+		// tie-breaker that counts from then on is the one the agent announces in its requests
+		restarted := rapid.IntRange(0, 3).Draw(rt, "restartedBefore") == 0
+		if restarted {
+			if err := s.ag.restart(); err != nil {
+				rt.Fatalf("harness: restart: %v", err)
+			}
+			s.w.mu.Lock()
+			s.w.inflight = nil
+			s.w.mu.Unlock()
+			for i, k := range []int{simKindHost, second} {
+				if _, err := s.ag.addLocal(i, false, k, true); err != nil {
+					rt.Fatalf("harness: %v", err)
+				}
+			}
+			_ = s.ag.a.SetRemoteCredentials(s.peer.ufrag, s.peer.pwd)
+			_ = s.ag.addRemoteSync(s.epCandidate(1, soloEpSpec{Typ: CandidateTypeHost}))
+			if known {
+				_ = s.ag.addRemoteSync(s.epCandidate(0, soloEpSpec{Typ: CandidateTypeHost}))
+			}
+			from := s.w.logLen()
+			s.ag.tick()
+			for _, d := range s.w.emittedSince(from, 0) {
+				if d.msg != nil && d.msg.class == stun.ClassRequest {
+					if d.msg.tiebreaker != T {
+						st.Label("tie-breaker-redrawn-by-restart")
+						Tp += d.msg.tiebreaker - T // keep the drawn relation towards the announced tie-breaker
+						T = d.msg.tiebreaker
+					}
+
+					break
+				}
+			}
+		}
 		// one conflict probe; a second one may follow at once (the agent's role may have changed in between)
 		probe := func(round int, controlling, sameRole bool, Tp uint64, useCand bool) {
 			ownRole, otherRole := "controlled", "controlling"
@@ -185,7 +219,7 @@ func TestVerif_C05_RoleConflictSolo(t *testing.T) {
 			})
 			s.inject(s.eps[0], to, req.Raw)
 			out := s.w.emittedSince(from, 0)
-			desc := fmt.Sprintf("probe %d: agent role=%s lite=%v T=%d; request role=%s T'=%d useCandidate=%v knownSource=%v preConnected=%v ownRoleBehindIntegrity=%v", round, ownRole, lite, T, role, Tp, useCand, known, preConnected, len(trailing) > 0)
+			desc := fmt.Sprintf("probe %d: agent role=%s lite=%v T=%d; request role=%s T'=%d useCandidate=%v knownSource=%v preConnected=%v restarted=%v ownRoleBehindIntegrity=%v", round, ownRole, lite, T, role, Tp, useCand, known, preConnected, restarted, len(trailing) > 0)
 			adjacent := T == Tp || T+1 == Tp || T-1 == Tp
 			boundary := false
 			for _, b := range c05Boundaries {
@@ -193,7 +227,7 @@ func TestVerif_C05_RoleConflictSolo(t *testing.T) {
 					boundary = true
 				}
 			}
-			st.Record(vfHashStr(desc), sameRole && (adjacent || boundary), fmt.Sprintf("sameRole:%v", sameRole), fmt.Sprintf("adjacent:%v", adjacent), fmt.Sprintf("lite:%v", lite), fmt.Sprintf("handler:%v", withHandler), fmt.Sprintf("roleBehindIntegrity:%v", len(trailing) > 0))
+			st.Record(vfHashStr(desc), sameRole && (adjacent || boundary), fmt.Sprintf("sameRole:%v", sameRole), fmt.Sprintf("adjacent:%v", adjacent), fmt.Sprintf("lite:%v", lite), fmt.Sprintf("handler:%v", withHandler), fmt.Sprintf("roleBehindIntegrity:%v", len(trailing) > 0), fmt.Sprintf("restarted:%v", restarted))
 			if sameRole && adjacent && st.WantSample() {
 				st.Sample(func() string { return desc })
 			}
